@@ -361,6 +361,17 @@ impl Part for C07 {
         if let Ok((enc2, _)) = produce(c.suite, &m, &k.pk_r, &info, &k2.ikm_e, cfg.seed) {
             perturb(&mut out, "encapsulated key of another session to the same recipient".into(), c.suite, &m, &k.sk_r, &enc2, &info);
         }
+        // the serialized keys with bytes appended / a leading byte dropped (a lenient parser would map them to the same key)
+        for (what, extra) in [("00", vec![0u8]), ("ff", vec![0xff]), ("a copy of itself", enc.clone())] {
+            perturb(&mut out, format!("encapsulated key || {}", what), c.suite, &m, &k.sk_r, &[&enc[..], &extra[..]].concat(), &info);
+            perturb(&mut out, format!("recipient private key || {}", what), c.suite, &m, &[&k.sk_r[..], &extra[..]].concat(), &enc, &info);
+            if c.mode.has_auth() {
+                let mut m2 = m.clone();
+                m2.pk_s.extend_from_slice(&extra);
+                perturb(&mut out, format!("sender public key || {}", what), c.suite, &m2, &k.sk_r, &enc, &info);
+            }
+        }
+        perturb(&mut out, "encapsulated key without its last byte".into(), c.suite, &m, &k.sk_r, &enc[..enc.len() - 1], &info);
         if c.suite.kem == Kem::X25519 {
             for b in 0..256 {
                 perturb(&mut out, format!("enc bit {}", b), c.suite, &m, &k.sk_r, &flip(&enc, b), &info);
